@@ -62,11 +62,17 @@ UNIT = dict(
                  ("C01,C02:chain_never_modified_by_reads", "final(info_arc).chain == old(info_arc).chain"),
                  ("C02,C12:marks_only_blocks_entirely_before_cursor", "marks_ok(final(self).globals.ckpt_calls@, old(self).globals.ckpt_calls@.len() as int, final(info_arc).chain@, final(info_arc).cur_block_idx as int)"),
                  ("C01:cursor_stays_well_formed", "wf_col(*final(info_arc))"),
+                 ("C09:persisted_tail_position_never_behind_memory", "persists_ok(final(self).read_offset_index.log@, old(self).read_offset_index.log@.len() as int, *old(info_arc))"),
+                 ("C09:persist_log_only_grows", "old(self).read_offset_index.log@.len() <= final(self).read_offset_index.log@.len()"),
              ],
-             hints=[dict(before="self.globals.set_checkpointed_true(block.id as usize);",
+             proof_prologue="proof { lemma_flag_ge(old(info_arc).tail_block_id); }",
+             hints=[dict(after="let (active_block, written) = writer_arc.snapshot_block()?;",
+                         text="            proof { lemma_tail_flag_inj(active_block.id, old(info_arc).tail_block_id); }"),
+                    dict(before="self.globals.set_checkpointed_true(block.id as usize);",
                          text="                    proof { lemma_marks_advance(self.globals.ckpt_calls@, old(self).globals.ckpt_calls@.len() as int, info.chain@, info.cur_block_idx as int); }")],
              loops={0: dict(kind="loop", invariant=[
                  ("", "persisted_tail is None"),
+                 ("", "(old(info_arc).tail_block_id | (1u64 << 63)) >= 0x8000_0000_0000_0000"),
                  ("", "wf_col(*info_arc)"), ("", "wf_writers(self.writers@)"), ("", "obeys_key_model::<String>()"),
                  ("", "info_arc.chain == old(info_arc).chain"),
                  ("", "self.topic_entry_counts == old(self).topic_entry_counts"),
@@ -76,6 +82,9 @@ UNIT = dict(
                  ("", "(!checkpoint && old(info_arc).hydrated_from_index) ==> sealed_pos(*info_arc) == sealed_pos(*old(info_arc)) && info_arc.tail_block_id == old(info_arc).tail_block_id && info_arc.tail_offset == old(info_arc).tail_offset && info_arc.reads_since_persist == old(info_arc).reads_since_persist"),
                  ("", "marks_ok(self.globals.ckpt_calls@, old(self).globals.ckpt_calls@.len() as int, info_arc.chain@, info_arc.cur_block_idx as int)"),
                  ("", "old(self).globals.ckpt_calls@.len() <= self.globals.ckpt_calls@.len()"),
+                 ("", "persists_ok(self.read_offset_index.log@, old(self).read_offset_index.log@.len() as int, *old(info_arc))"),
+                 ("", "old(self).read_offset_index.log@.len() <= self.read_offset_index.log@.len()"),
+                 ("", "info_arc.tail_block_id == old(info_arc).tail_block_id && info_arc.tail_offset == old(info_arc).tail_offset"),
              ],
                              decreases="info_arc.chain.len() - info_arc.cur_block_idx")},
              ),
